@@ -317,6 +317,10 @@ class Flattener:
         # assert c : no effect on a run that does not fail
         if isinstance(st, ast.Assert):
             return []
+        # if c: raise ..   (argument validation: no effect on a run that does not fail)
+        if isinstance(st, ast.If) and not st.orelse and len(st.body) == 1 and isinstance(st.body[0], ast.Raise) and "_computed" not in au.src(st.test) \
+                and "computed" not in au.src(st.test):
+            return []
         # `a or f(x)` / `a and f(x)` as a statement  ->  if not a: f(x)  /  if a: f(x)
         if isinstance(st, ast.Expr) and isinstance(st.value, ast.BoolOp) and len(st.value.values) >= 2:
             bo = st.value
@@ -701,7 +705,7 @@ class Flattener:
             body = strip_doc(f.body)
             if "property" in decos and len(body) == 1 and isinstance(body[0], ast.Return) and isinstance(body[0].value, ast.Attribute) \
                     and isinstance(body[0].value.value, ast.Name) and body[0].value.value.id == "self" and body[0].value.attr != name \
-                    and body[0].value.attr not in KEEP_PRIVATE:
+                    and body[0].value.attr not in KEEP_PRIVATE and body[0].value.attr.startswith("_") and not name.startswith("_"):
                 alias[body[0].value.attr] = name
         if not alias or fn.name in alias.values():
             return
